@@ -403,8 +403,9 @@ def classify(whats):
     return "+".join(sorted(ks))
 
 
-class Budget(Exception):
-    pass
+class Budget(BaseException):
+    """raised by the job alarm; not an Exception, so that no 'except Exception' on the way (compile_spec turns
+    those into a rejection) mistakes an exhausted budget for a verdict"""
 
 
 def work_equiv(spec, metrics=False, twin=True, targets=None, total=False):
